@@ -26,21 +26,46 @@ from tools import common, shroudrun
 LEVEL = "translation_validation"
 MANIFEST = dict(
     category="translation_validation",
-    text="Lean 4 theorems about lexical models of C/C++ and free-form Fortran comment removal (state machines): the checker "
-         "commentOnlyDiff accepts exactly the file pairs with equal token structure, accepts every insertion/removal of "
-         "complete comment blocks and blank lines at code-state line boundaries and of trailing comments (for all texts, "
-         "any number of edits), stripping is idempotent; a table theorem over a list regenerated from the working tree on "
-         "every run says that every statement guarded by debug/debug_index/doxygen/literalinclude/show_splicer_comments/"
-         "write_version only appends comment or blank templates (or is on a justified allow-list). Translation validation: "
-         "for corpus and generated libraries and on/off combinations of the options (global and per declaration) the real "
-         "outputs are produced, the file sets must agree and each differing source pair is judged by the compiled Lean checker.",
+    text="Lean 4 theorems, for all texts, about lexical models of C/C++ and free-form Fortran (one-character state machines for "
+         "comment removal; language-level tokens by maximal munch: identifiers, numbers, literals, punctuators; C line ends "
+         "significant only for preprocessor directives; Fortran names case-insensitive, continuations joined): the checker "
+         "commentOnlyDiff accepts exactly the file pairs with equal token lists (commentOnlyDiff_iff, token_change_detected); the "
+         "tokens of a chunk concatenate to the chunk and are non-empty (lex_tokens_concat), so accepted pairs differ only in "
+         "comments and in blanks between tokens; every insertion/removal of complete comment blocks and blank lines at code-state "
+         "line boundaries and of trailing comments is accepted, for any number of edits (insert_comment_block, remove_comment_block, "
+         "trailing_comment, commentEdit_accepted, with the comment shapes line_comment_block_c/f, blank_block, block_comment_c for "
+         "every comment text); the code-state hypotheses are necessary (insert_needs_code_state, trailing_needs_code_state); "
+         "stripping is idempotent (stripC_idempotent, stripF_idempotent). No _partial statements. Table theorems over five lists "
+         "regenerated from the working tree by an AST scan on every run: every statement under a debug/debug_index/doxygen/"
+         "declaration-level literalinclude/show_splicer_comments/write_version guard (both branches) and in the comment emitters "
+         "only appends comment/blank templates or is neutral (guarded_statements_comment_only), every read of an option is a guard, "
+         "alias or comment argument (option_uses_classified), comment lists stay clean (comment_lists_clean), no guarded comment "
+         "reaches a list whose emptiness decides whether a file is written unless code is appended beside it "
+         "(no_guarded_append_decides_file), config.write_version is read only by util.write_output_file and main.dump_jsonfile "
+         "(write_version_read_only_for_header; the header line is a comment by Shroud.Lines.wof_header_then_body, Props/C13.lean). "
+         "Translation validation: for corpus, generated and feature libraries (overload sets with all cpp_if patterns, "
+         "fortran_generic, default-argument generics, classes with cpp_if / base classes, structs, scopes that hold no code, "
+         "doxygen blocks, user splicers for harvested block names) and on/off combinations of the options set globally and on "
+         "individual declarations (alone, in pairs, on the first/middle/last member of overload sets) the real outputs are "
+         "produced, the file sets must agree and each differing C/C++/Fortran source pair (C, C++, Python-extension and Lua "
+         "wrappers are C/C++ sources) is judged by the compiled Lean checker. setup.py, *_types.yaml and the .json/.log run logs "
+         "take part in the file-set comparison only: the property demands token identity for the sources.",
     design="3 C16",
-    note="Trusted: Lean kernel; the lexical models (no trigraphs, raw strings, #if 0, Fortran continuation inside character "
-         "context), validated against gcc -fpreprocessed -E and gfortran -fsyntax-only on samples and mirrored by a Python "
-         "lexer compared on every run; the AST classification of guarded statements in tools/extract_guards.py and its "
-         "allow-list. The unbounded guarantee is the checker's; which pairs it is applied to is bounded by the libraries "
-         "and option combinations produced.",
-    technique="Lean 4 proof (state-machine invariants, induction over texts; decide over regenerated tables) + translation validation with a proved checker",
+    note="Trusted: Lean kernel (axioms propext, Quot.sound); the lexical models: not modelled are trigraphs, raw strings, splices "
+         "outside // comments and literals, #if 0, C++14 digit separators, Fortran continuation inside character context, fixed form, ';'; "
+         "where not exact the tokens are coarser than the compilers' (identifier glued to an adjacent literal, adjacent literals, "
+         "'..', Fortran names joined by dots) so a blank cannot move into or out of a compiler token unnoticed - this coarseness "
+         "claim and the comment removal are validated, not proved: Python mirror compared with the Lean driver on every run; in "
+         "the thorough tier gcc -fpreprocessed -dD -E -P (per directive / code stretch, and token equality after re-lexing gcc's "
+         "output), same assembly from the text rebuilt with one blank between any two model tokens where the wrapper compiles "
+         "here, same gfortran parse tree for the rebuilt Fortran text. Trusted too: the AST classification of "
+         "tools/extract_guards.py with its allow-list (each entry justified there; discharged only by the differential runs) and "
+         "the assumption that dynamic text spliced into comment templates holds no newline. Version stamping: the stamp is in the "
+         "second header line only (C13 theorem wof_header_then_body about the model of write_output_file + the write_version "
+         "reads table). The guarantee of the checker is unbounded; which file pairs it is applied to is bounded by the libraries "
+         "and option placements generated.",
+    technique="Lean 4 proof (state-machine invariants, induction over texts, simulation for idempotence; decide +kernel over "
+              "regenerated AST tables) + translation validation with the proved checker + compiler cross-validation of the lexers",
 )
 MODULES = ["ShroudVerif.Props.C16"]
 THEOREMS = {
@@ -63,6 +88,9 @@ THEOREMS = {
         "Shroud.Gen.Guards.option_uses_classified",
         "Shroud.Gen.Guards.comment_lists_clean",
         "Shroud.Gen.Guards.no_guarded_append_decides_file",
+        "Shroud.Gen.Guards.write_version_read_only_for_header",
+        "Shroud.Lex.lex_tokens_concat",
+        "Shroud.Lex.tokensOf_congr",
         "Shroud.Gen.Guards.guards_found",
     ]
 }
@@ -219,8 +247,78 @@ def digest(lines):
     return "%d %d %d" % (len(lines), n, h)
 
 
+def _alnum(c):
+    return c.isascii() and c.isalnum()
+
+
+CFG_C = dict(isword=lambda c: _alnum(c) or c in "_$", expo="eEpP", dotnum=True, puncts={
+    "->", "++", "--", "<<", ">>", "<=", ">=", "==", "!=", "&&", "||", "+=", "-=", "*=", "/=", "%=", "&=", "^=", "|=",
+    "::", "##", ".*", "..", "<:", ":>", "<%", "%>", "%:", "<<=", ">>=", "...", "->*", "<=>", "%:%", "%:%:"})
+CFG_F = dict(isword=lambda c: _alnum(c) or c in "_.", expo="edq", dotnum=False,
+             puncts={"**", "//", "==", "/=", "<=", ">=", "=>", "::", "(/", "/)"})
+
+
+def lex_chunk(cfg, chunk):
+    """mirror of Model/Lex.lean lexChunk: split a blank-free chunk into language tokens"""
+    out, cur, k = [], [], 0
+    n = len(chunk)
+    for i, o in enumerate(chunk):
+        kind, c = o
+        lit = kind == "lit"
+        nd = i + 1 < n and chunk[i + 1][0] == "ch" and chunk[i + 1][1].isascii() and chunk[i + 1][1].isdigit()
+        if k == 1:
+            ext = lit or cfg["isword"](c)
+        elif k == 2:
+            ext = (lit or cfg["isword"](c) or c == "." or
+                   (c in "+-" and bool(cur) and cur[-1][0] == "ch" and cur[-1][1] in cfg["expo"]))
+        elif k == 3:
+            ext = (not lit and not cfg["isword"](c) and not (cfg["dotnum"] and c == "." and nd)
+                   and "".join(x[1] for x in cur) + c in cfg["puncts"])
+        else:
+            ext = False
+        if ext:
+            cur.append(o)
+        else:
+            if cur:
+                out.append(cur)
+            cur = [o]
+            if lit:
+                k = 1
+            elif c.isascii() and c.isdigit():
+                k = 2
+            elif cfg["dotnum"] and c == "." and nd:
+                k = 2
+            elif cfg["isword"](c):
+                k = 1
+            else:
+                k = 3
+    if cur:
+        out.append(cur)
+    return out
+
+
+def _lower(c):
+    return chr(ord(c) + 32) if "A" <= c <= "Z" else c
+
+
+def refine(lang, lines):
+    if lang == "f":
+        return [[t for ch in l for t in lex_chunk(CFG_C, ch)] if l and l[0][0] == ("ch", "#") else
+                [t for ch in l for t in lex_chunk(CFG_F, [(k, _lower(c) if k == "ch" else c) for k, c in ch])] for l in lines]
+    lexed = [[t for ch in l for t in lex_chunk(CFG_C, ch)] for l in lines]
+    res = []
+    for l in reversed(lexed):
+        isdir = bool(l) and l[0][0] == ("ch", "#")
+        if isdir or not res or (res[-1] and res[-1][0][0] == ("ch", "#")):
+            res.append(l)
+        else:
+            res[-1] = l + res[-1]
+    res.reverse()
+    return res
+
+
 def py_tokens(lang, text):
-    return tokens(strip_c(text) if lang == "c" else strip_f(text))
+    return refine(lang, tokens(strip_c(text) if lang == "c" else strip_f(text)))
 
 
 def tok_text(lines):
@@ -696,6 +794,15 @@ class Judge:
         self.drv = common.Driver("drv_lex")
         self.use_lean = lean_ok and self.drv.available()
         self.disagree = []
+        self.cache = {}
+
+    def _toks(self, lang, text):
+        key = (lang, hashlib.sha1(text.encode()).digest())
+        if key not in self.cache:
+            if len(self.cache) > 4000:
+                self.cache.clear()
+            self.cache[key] = tok_text(py_tokens(lang, text))
+        return self.cache[key]
 
     def compare(self, pairs):
         """pairs: [(lang, textA, textB)] -> list of None (accepted) or (line index, tokensA, tokensB)"""
@@ -704,7 +811,7 @@ class Judge:
         res = []
         py = []
         for lang, a, b in pairs:
-            ta, tb = tok_text(py_tokens(lang, a)), tok_text(py_tokens(lang, b))
+            ta, tb = self._toks(lang, a), self._toks(lang, b)
             if ta == tb:
                 py.append(None)
             else:
@@ -738,15 +845,19 @@ def lexer_correspondence(ctx, lean_ok, file_texts, thorough):
             f = ln.rstrip("\n").split(" ")
             if len(f) == 3 and f[0] == "lex":
                 cases.append((f[1], common.dec(f[2])))
-    alpha = {"c": "a/*\"'\\\n ;", "f": "a!&'\"\n ;x"}
+    alpha = {"c": "a/*\"'\\\n ;", "f": "a!&'\"\n ;x"}                      # comment / literal / continuation structure
+    talpha = {"c": "a1.e+-<=>#:%\" \n", "f": "aE1.+-*/(=:#' \n"}                 # token structure
     n = 5 if thorough else 4
     for lang in ("c", "f"):
         for k in range(0, n + 1):
             for t in itertools.product(alpha[lang], repeat=k):
                 cases.append((lang, "".join(t)))
-        for _ in range(4000 if thorough else 1000):
+        for k in range(1, n):
+            for t in itertools.product(talpha[lang], repeat=k):
+                cases.append((lang, "".join(t)))
+        for _ in range(6000 if thorough else 1500):
             k = r.randrange(5, 60)
-            cases.append((lang, "".join(r.choice(alpha[lang] + "ab =\t(") for _ in range(k))))
+            cases.append((lang, "".join(r.choice(alpha[lang] + talpha[lang] + "ab =\t(_$D") for _ in range(k))))
     nreal = 0
     for lang, text in file_texts:
         cases.append((lang, text))
@@ -772,41 +883,91 @@ def lexer_correspondence(ctx, lean_ok, file_texts, thorough):
 
 
 # ------------------------------------------------------------------ compiler validation (thorough)
-def gcc_lines(path, cxx):
+def gcc_strip(path, cxx):
     p = subprocess.run(["gcc", "-fpreprocessed", "-dD", "-E", "-P", "-x", "c++" if cxx else "c", path],
                        stdout=subprocess.PIPE, stderr=subprocess.PIPE, text=True, timeout=120)
+    return p.stdout if p.returncode == 0 else None
+
+
+def _segments(lines):
+    """whitespace-free text per preprocessor directive line and per stretch of other lines"""
+    res, cur = [], []
+    for l in lines:
+        t = "".join(l.split())
+        if not t:
+            continue
+        if t.startswith("#"):
+            if cur:
+                res.append("".join(cur)); cur = []
+            res.append(t)
+        else:
+            cur.append(t)
+    if cur:
+        res.append("".join(cur))
+    return res
+
+
+def _asm(path, incs, cxx, vdir):
+    cmd = ["g++" if cxx else "gcc", "-S", "-w", "-O0", "-o", "-", path] + ["-I" + i for i in incs]
+    p = subprocess.run(cmd, stdout=subprocess.PIPE, stderr=subprocess.PIPE, text=True, timeout=300, cwd=vdir)
     if p.returncode != 0:
         return None
-    return ["".join(l.split()) for l in p.stdout.split("\n") if l.strip()]
+    return "\n".join(l for l in p.stdout.split("\n") if not l.lstrip().startswith((".file", ".ident", ".loc")))
 
 
-def validate_compilers(ctx, samples, work):
-    """samples: [(name, lang, text)].  C/C++: gcc's comment removal vs the model, line by line, ignoring blanks.
-    Fortran: the original file and the model's canonical text (comments and continuations removed) must have the
-    same gfortran parse tree."""
-    nc = nf = nf_skipped = 0
+def validate_compilers(ctx, samples, work, max_compile):
+    """samples: [(name, lang, text, include dirs)].
+    C/C++ comment removal: gcc -fpreprocessed -dD -E -P vs the model, (a) character for character per directive line /
+    code stretch ignoring blanks, (b) the model's tokens of gcc's output equal the model's tokens of the original.
+    C/C++ token boundaries: where the original compiles (wrappers whose library headers are in regression/run), the
+    text rebuilt from the model's tokens with ONE BLANK BETWEEN ANY TWO TOKENS must compile to the same assembly: a
+    boundary inside a compiler token would break or change it.
+    Fortran: the original and the text rebuilt the same way (comments and continuations removed, lower case, one
+    blank between tokens) must have the same gfortran parse tree."""
+    import sysconfig
+    nc = nf = nf_skipped = ncomp = ncomp_skipped = 0
     bad = []
     vdir = os.path.join(work, "validate")
     os.makedirs(vdir, exist_ok=True)
-    for name, lang, text in samples:
+    pyinc = sysconfig.get_paths()["include"]
+    for name, lang, text, incs in samples:
         toks = tok_text(py_tokens(lang, text))      # the mirror is tied to the Lean model by lexer_correspondence
+        canon = "\n".join(" ".join(l) for l in toks) + "\n"
         if lang == "c":
             if "\\\n" in text:
-                continue      # gcc -fpreprocessed does not splice; the generator writes no splices
-            path = os.path.join(vdir, "s.cpp" if name.endswith(("pp", "xx")) else "s.c")
+                continue      # gcc -fpreprocessed does not splice; the generator writes no splices outside macros
+            cxx = name.endswith(("pp", "xx"))
+            ext = os.path.splitext(name)[1]
+            path = os.path.join(vdir, "s" + ext)
             with open(path, "w") as f:
                 f.write(text)
-            g = gcc_lines(path, path.endswith("pp"))
+            g = gcc_strip(path, cxx)
             if g is None:
                 continue
-            m = ["".join("".join(l).split()) for l in toks]     # blanks inside literals are dropped on both sides
             nc += 1
-            if g != m:
-                k = next((i for i, (x, y) in enumerate(zip(g, m)) if x != y), min(len(g), len(m)))
-                bad.append({"file": name, "line": k, "gcc": g[k:k + 1], "model": m[k:k + 1]})
+            gs = _segments(g.split("\n"))
+            m = ["".join("".join(l).split()) for l in toks]
+            if gs != m:
+                k = next((i for i, (x, y) in enumerate(zip(gs, m)) if x != y), min(len(gs), len(m)))
+                bad.append({"file": name, "segment": k, "gcc": gs[k:k + 1][:1], "model": m[k:k + 1][:1]})
+            elif tok_text(py_tokens("c", g)) != toks:
+                bad.append({"file": name, "what": "tokens of gcc's comment-free text differ from the tokens of the original"})
+            if ext in (".c", ".cpp", ".cxx") and ncomp < max_compile:
+                a0 = _asm(path, incs + [pyinc], cxx, vdir)
+                if a0 is None:
+                    ncomp_skipped += 1
+                else:
+                    cpath = os.path.join(vdir, "canon" + ext)
+                    with open(cpath, "w") as f:
+                        f.write(canon)
+                    a1 = _asm(cpath, incs + [pyinc], cxx, vdir)
+                    ncomp += 1
+                    if a0 != a1:
+                        bad.append({"file": name, "what": "text rebuilt from the model's tokens (one blank between tokens) "
+                                    + ("does not compile" if a1 is None else "compiles to different assembly")})
         else:
             dumps = []
-            for tag, t in (("orig", text), ("canon", "\n".join(" ".join(l) for l in toks) + "\n")):
+            for tag, t in (("orig", text), ("canon", canon)):
                 path = os.path.join(vdir, tag + ".f90")
                 with open(path, "w") as f:
                     f.write(t)
@@ -819,11 +980,12 @@ def validate_compilers(ctx, samples, work):
                 continue
             nf += 1
             if dumps[0] != dumps[1]:
-                bad.append({"file": name, "gfortran": "parse trees of the original and of the comment-free text differ",
+                bad.append({"file": name, "gfortran": "parse trees of the original and of the text rebuilt from the model's tokens differ",
                             "rc": [dumps[0][0], dumps[1][0]]})
-    ctx.note("compiler_validation", {"c_files": nc, "fortran_files": nf, "fortran_skipped_need_other_modules": nf_skipped,
-                                     "disagreements": len(bad)})
-    ctx.count(nc + nf)
+    ctx.note("compiler_validation", {"c_files_vs_gcc_E": nc, "c_files_token_rebuild_same_assembly": ncomp,
+                                     "c_files_not_compilable_here": ncomp_skipped, "fortran_files_same_parse_tree": nf,
+                                     "fortran_skipped_need_other_modules": nf_skipped, "disagreements": len(bad)})
+    ctx.count(nc + nf + ncomp)
     if bad:
         ctx.tie_broken("lexer-vs-compiler", bad[:5])
 
@@ -895,7 +1057,11 @@ def judge_library(ctx, judge, item, spec, names, excs, file_texts, samples):
             for fn, data in sorted(trees[n].items()):
                 lang = lang_of(fn)
                 if lang:
-                    samples.append(("%s/%s/%s" % (label, n, fn), lang, data.decode("utf-8", "replace")))
+                    base = os.path.splitext(os.path.basename(item["yaml"]))[0]
+                    incs = [spec["variants"][names.index(n)]["outdir"],
+                            os.path.join(common.REPO, "regression", "run", label.split("+")[0]),
+                            os.path.join(common.REPO, "regression", "run", base)]
+                    samples.append(("%s/%s/%s" % (label, n, fn), lang, data.decode("utf-8", "replace"), incs))
     verdicts = judge.compare(pairs)
     for (n, fn, rp), v, (lang, a, b) in zip(meta, verdicts, pairs):
         if v is not None:
@@ -918,20 +1084,26 @@ def run(ctx):
         ok = ctx.lean(MODULES, THEOREMS, extra_targets=("drv_lex",))
         ctx.cov["trusted_base"] = [
             "Lean 4.33.0 kernel; axioms within {propext, Classical.choice, Quot.sound}",
-            "lexical models Model/Lex.lean (validated against gcc/gfortran in the thorough tier, mirrored in Python on every run)",
-            "tools/extract_guards.py: AST classification of option-guarded statements and its allow-list (%d entries)" % (
-                len(extract_guards.ALLOW) + len(extract_guards.ALLOW_USE)),
+            "lexical models Model/Lex.lean: comment removal state machines and the token refinement (coarser-or-equal to compiler "
+            "tokens by construction, validated against gcc/gfortran in the thorough tier, mirrored in Python on every run)",
+            "tools/extract_guards.py: AST classification of option-guarded statements, emptiness-tested lists, write_version reads; "
+            "allow-list of %d entries" % (len(extract_guards.ALLOW) + len(extract_guards.ALLOW_USE)),
+            "Shroud.Lines.wof_header_then_body (Props/C13.lean) for the position of the version stamp",
         ]
-        ctx.cov["rule"] = ("translation validation: corpus (quick %d, thorough all) + generated libraries x {single option on, all on, "
-                           "combinations, per-declaration debug/doxygen/literalinclude on all / a third / a random mix of the "
-                           "declarations}; every source file pair that differs in bytes is judged by the Lean checker; a (library, "
-                           "variant) is non-trivial when at least one source file differs in bytes from the all-off base; lexer "
-                           "correspondence: exhaustive strings up to length %d over a 9-10 symbol alphabet, random strings, real files"
-                           % (len(QUICK_LIBS), 5 if thorough else 4))
+        ctx.cov["rule"] = ("translation validation: corpus (quick %d, thorough all) + generated + feature libraries (each also with user "
+                           "splicers for harvested block names) x {single option on, all on, combinations, per-declaration debug/doxygen/"
+                           "literalinclude on all / a third / a random mix of the declarations, option pairs on top-level and nested "
+                           "declarations, one option on the first/middle/last member of every overload set}; file sets compared for "
+                           "all outputs except .json/.log; every C/C++/Fortran source pair that differs in bytes is judged by the Lean "
+                           "checker; a (library, variant) is non-trivial when at least one source file differs in bytes from the "
+                           "all-off base; lexer correspondence: exhaustive strings up to length %d over two 9-16 symbol alphabets per "
+                           "language (comment structure, token structure), random strings, real files (non-trivial: contains a comment, "
+                           "literal or continuation character)" % (len(QUICK_LIBS), 5 if thorough else 4))
         ctx.assumptions += [
             "dynamic text spliced into comment templates (declaration text, statement names, splicer names) contains no newline",
-            "the generator emits no trigraphs, raw strings, splices outside comments, or Fortran continuation inside character context",
-            "which file pairs are judged is bounded by the libraries and option combinations produced",
+            "the generator emits no trigraphs, raw strings, splices outside comments/macros, digit separators, or Fortran continuation inside character context",
+            "model tokens are unions of whole compiler tokens (validated by compiling the rebuilt text, not proved)",
+            "which file pairs are judged is bounded by the libraries and option placements generated",
         ]
         ctx.cov["theorems"] = ctx.cov.get("theorems", [])
 
@@ -978,7 +1150,7 @@ def run(ctx):
             ctx.tie_broken("lean-checker-unavailable", "verdicts were computed by the Python mirror only")
         # ---------------- lexer correspondence on strings + real files
         seen, texts = set(), []
-        for name, lang, text in samples:
+        for name, lang, text, _incs in samples:
             h = hashlib.sha1(text.encode()).digest()
             if h not in seen:
                 seen.add(h)
@@ -987,13 +1159,13 @@ def run(ctx):
         lexer_correspondence(ctx, drv_ok, texts[: (400 if thorough else 60)], thorough)
         if thorough:
             uniq, seen2 = [], set()
-            for name, lang, text in samples:
+            for name, lang, text, incs in samples:
                 h = hashlib.sha1(text.encode()).digest()
                 if h not in seen2:
                     seen2.add(h)
-                    uniq.append((name, lang, text))
+                    uniq.append((name, lang, text, incs))
             r.shuffle(uniq)
-            validate_compilers(ctx, uniq[:250], work)
+            validate_compilers(ctx, uniq[:250], work, 60)
     finally:
         common.rmtree(work)
 
